@@ -1,7 +1,7 @@
 (* C17 — proofs: every consumer of unordered iteration modelled in model/M_Perm.v computes the same
    result for every permutation of the entries. *)
 From Coq Require Import ZArith Arith List Bool Lia Permutation Sorted.
-From FxV Require Import model.M_NondetTypes model.M_NondetAllow gen.Gen_NondetSites model.M_Perm.
+From FxV Require Import model.M_NondetTypes model.M_NondetAllow gen.Gen_NondetSites model.M_Perm model.M_State proofs.P_State.
 Import ListNotations.
 Open Scope Z_scope.
 
@@ -355,12 +355,12 @@ Definition discharge_stmt (d : discharge) : Prop :=
         forall k, rebuild entries k = rebuild entries' k
   | D_PureFloat => True     (* classification by reading: see model/M_NondetAllow.v *)
   | D_Telemetry => True     (* classification by reading *)
-  | D_WiringOnly => True    (* classification by reading *)
+  | D_WiringOnly => writers_wiring_only = true   (* finite check over the generated writer / caller lists *)
   end.
 
 Lemma discharge_sound : forall d, discharge_stmt d.
 Proof.
-  intros []; simpl; auto.
+  intros []; simpl; auto; try (exact (proj1 state_wiring_only)).
   - intros. eapply sort_after_collect_deterministic; eauto.
   - intros. apply tally_order_irrelevant. assumption.
   - intros. apply power_diff_order_irrelevant; assumption.
@@ -403,3 +403,64 @@ Lemma perm_examples :
      [mk_gov_val 100 10 50 [(1, 100)]; mk_gov_val 200 0 80 []; mk_gov_val 300 30 90 [(1, 60); (3, 40)]]) = 126 /\
   (0 < Z.of_nat (length gen_sites)) /\ (20 <= gen_packages_checked).
 Proof. vm_compute. repeat split; try reflexivity; discriminate. Qed.
+
+(* ------------------------------------------------------------------ *)
+(* UpdateProposalOracles: the two maps are only indexed, so the order in which they were filled (the order of
+   the two address lists) is irrelevant *)
+Lemma member_of_perm_ext : forall l l', Permutation l l' -> forall x, member_of x l = member_of x l'.
+Proof. intros. apply membership_order_irrelevant. assumption. Qed.
+
+Theorem upo_order_irrelevant : forall max_size all old old' new new',
+  Permutation old old' -> Permutation new new' ->
+  upo max_size all old new = upo max_size all old' new'.
+Proof.
+  intros max_size all old old' new new' Po Pn. unfold upo.
+  rewrite (Permutation_length Pn).
+  assert (E : filter (fun o => negb (member_of (o_addr o) new) && member_of (o_addr o) old) all =
+              filter (fun o => negb (member_of (o_addr o) new') && member_of (o_addr o) old') all).
+  { apply filter_ext. intro o. rewrite (member_of_perm_ext _ _ Pn), (member_of_perm_ext _ _ Po). reflexivity. }
+  rewrite E. reflexivity.
+Qed.
+
+(* pruneAttestations: the remaining attestations do not depend on the order in which the collected nonces are
+   deleted, nor on the order the attestations were walked in *)
+Lemma fold_del_absent : forall dels (m : fmap) k, m k = None -> fold_left fm_del dels m k = None.
+Proof.
+  induction dels as [|d r IH]; intros m k H; simpl; [exact H|].
+  apply IH. unfold fm_del. destruct (k =? d); auto.
+Qed.
+
+Lemma fold_del_spec : forall dels (m : fmap) k,
+  fold_left fm_del dels m k = if member_of k dels then None else m k.
+Proof.
+  induction dels as [|d r IH]; intros m k; simpl; [reflexivity|].
+  rewrite IH. unfold fm_del. destruct (k =? d) eqn:E; simpl.
+  - destruct (member_of k r); reflexivity.
+  - reflexivity.
+Qed.
+
+(* what prune leaves: exactly the attestations above the cut-off *)
+Theorem prune_spec : forall keep last atts k,
+  keep < last ->
+  prune keep last atts k = if k <=? last - keep then None else present atts k.
+Proof.
+  intros keep last atts k H. unfold prune.
+  destruct (last <=? keep) eqn:E; [apply Z.leb_le in E; lia|].
+  unfold delete_all. rewrite fold_del_spec.
+  destruct (k <=? last - keep) eqn:C.
+  - destruct (member_of k (filter (fun n => n <=? last - keep) atts)) eqn:M; [reflexivity|].
+    (* k is not among the deleted ones: then it was not present at all *)
+    unfold present, rebuild.
+    assert (G : forall l (m : fmap), m k = None -> member_of k (filter (fun n => n <=? last - keep) l) = false ->
+                fold_left (fun m e => fm_upd m (fst e) (snd e)) (map (fun k0 => (k0, 1)) l) m k = None).
+    { induction l as [|x l IH]; intros m Hm Hf; simpl; [exact Hm|].
+      simpl in Hf. destruct (x <=? last - keep) eqn:X.
+      - simpl in Hf. apply orb_false_iff in Hf. destruct Hf as [Hx Hf]. apply IH; [|exact Hf].
+        unfold fm_upd. simpl. rewrite Hx. exact Hm.
+      - apply IH; [|exact Hf]. unfold fm_upd. simpl.
+        destruct (k =? x) eqn:KX; [apply Z.eqb_eq in KX; subst; rewrite C in X; discriminate|exact Hm]. }
+    apply G; [reflexivity|exact M].
+  - destruct (member_of k (filter (fun n => n <=? last - keep) atts)) eqn:M; [|reflexivity].
+    unfold member_of in M. apply existsb_exists in M. destruct M as [x [Hx Ex]].
+    apply Z.eqb_eq in Ex. subst x. apply filter_In in Hx. destruct Hx as [_ Hx]. rewrite C in Hx. discriminate.
+Qed.
